@@ -13,8 +13,12 @@ the accepted attempts' spends; the signature is the aggregate of exactly their s
 + declared costs, <= the limit, = the cost run_block_generator2 charges when the declared costs are truthful (and the block
 is invalid with a budget one below); after every prefix cost() >= the cost of finalizing there; leaving out the rejected /
 failed attempts gives byte-identical output; nothing panics.
-The overflow class (a declared cost so large that a u64 sum overflows: candidate finding F-C10-1) is generated in a
-SEPARATE stream `bundle.o10.overflow`; it only counts as a failure when KNOWN_FINDINGS.jsonl lists F-C10-1."""
+Histories with a declared cost chosen to make a u64 sum overflow (finding F-C10-1, FIXED in /repo by "fix: block builders
+reject a declared cost above the block limit before summing") are part of the default streams: they must satisfy the
+property like any other history (the attempt is rejected, nothing changes, no panic in the overflow-checking build).
+Known findings, matched by witness class only: F-C10-2 class `initcost` (oracle verdict FAIL-INIT: compressed builder, nothing
+serialized yet, cost() short by exactly 5*cost_per_byte), F-C10-3 class `recompress` (verdict FAIL-COMPRESS: same decoded
+spends and signature, different bytes/cost after a serialized-then-restored attempt)."""
 import os, sys, json
 from collections import Counter
 sys.path.insert(0, os.path.dirname(os.path.dirname(os.path.abspath(__file__))))
@@ -36,14 +40,11 @@ ASSUMPTIONS = ["clvmr's incremental back-reference Serializer is an oracle: size
                "node_to_bytes_backrefs / node_from_bytes_backrefs (clvmr) are oracles: generators are compared after decoding",
                "signatures: the model computes in the free commutative monoid over key indices; the harness checks the real "
                "aggregate against that multiset",
-               "declared costs whose u64 sums overflow are outside the default stream (candidate finding F-C10-1, reported "
-               "separately)"]
+               "no restriction on declared costs (values up to 2^64-1 incl. ones aimed at wrapping the u64 sums are in the default stream)"]
 TRUSTED = ["hand-written mirror coq/Bundle/Builder.v tied to build_compressed_block.rs / build_interned_block.rs by these streams",
            "the shadow Serializer in harness/src/bin/vh_bundle.rs (follows the real builder's accept decisions)"]
 
-FINDING = "F-C10-1"       # u64 overflow with declared costs near 2^64
-FINDING2 = "F-C10-2"      # compressed builder: byte_cost starts at 0, cost() short by 5 * cost_per_byte until an add is serialized
-FINDING3 = "F-C10-3"      # compressed builder: a serialized-then-restored attempt changes the compression of later attempts
+SOFT = {"initcost": "FAIL-INIT", "recompress": "COMPRESS"}     # witness class -> tag in the oracle verdict
 
 
 def build_ovf():
@@ -58,26 +59,14 @@ def binary(build):
 
 
 def classify_known(failure, known):
-    """F-C10-1: exactly the histories of the overflow stream whose oracle verdict is the overflow symptom;
-    F-C10-2: exactly the FAIL-INIT verdicts (compressed builder, no attempt serialized yet, cost() short by 5*cpb)"""
-    if failure["stream"] == "bundle.o10.initcost" and failure["impl"].startswith("FAIL-INIT"):
-        for k in known:
-            if k.get("id") == FINDING2:
-                return FINDING2
-        return None
-    if failure["stream"] == "bundle.o10.recompress" and "COMPRESS " in failure["impl"].split(" ")[0] + " ":
-        for k in known:
-            if k.get("id") == FINDING3:
-                return FINDING3
-        return None
-    if failure["stream"] != "bundle.o10.overflow":
-        return None
-    for k in known:
-        if k.get("id") == FINDING:
-            msg = failure["impl"]
-            if msg.startswith("FAIL add_spend_bundles panicked") or msg.startswith("FAIL returned cost") \
-               or msg.startswith("FAIL cost() panicked") or msg.startswith("FAIL prefix panicked"):
-                return FINDING
+    """a failure is a known finding only if it sits in the stream of a witness class (bundle.o10.<class>), its oracle verdict
+    carries that class's tag (FAIL-INIT / FAIL-COMPRESS, i.e. the oracle found NOTHING else wrong with the history), and
+    KNOWN_FINDINGS.jsonl has an entry whose match.class is that class"""
+    for cls, tag in SOFT.items():
+        if failure["stream"] == "bundle.o10." + cls and failure["impl"].startswith("FAIL-") and tag in failure["impl"].split(" ")[0]:
+            for k in known:
+                if (k.get("match") or {}).get("class") == cls:
+                    return k["id"]
     return None
 
 
@@ -162,55 +151,40 @@ def run(ctx):
             rep.evaluations += len(lines)
 
     # ---- the property itself on the implementation
-    known_listed = any(k.get("id") == FINDING for k in C.load_known())
-    known2_listed = any(k.get("id") == FINDING2 for k in C.load_known())
-    known3_listed = any(k.get("id") == FINDING3 for k in C.load_known())
+    listed = {cls: any((k.get("match") or {}).get("class") == cls and k.get("property") == "C10" and k.get("status") == "known"
+                       for k in C.load_known()) for cls in SOFT}
     # a block limit below the cost of the EMPTY generator is outside the quantifier (finalize's assert fires on an empty
     # builder; the mirror predicts it, see the hist streams)
     hs_all = [h for h in hs + real_histories(rng.fork("real"), env, tier) if h["max"] >= 20 + 11 * h["cpb"]]
+    why = {"initcost": "cost() underestimates the final cost before the first serialized add",
+           "recompress": "a rejected (serialized, restored) attempt changes the bytes and cost of the later output"}
     for build in builds:
-        normal = [h for h in hs_all if not h["overflow"]]
-        lines = [B.history_line("bundle.o10", build, h) for h in normal]
+        lines = [B.history_line("bundle.o10", build, h) for h in hs_all]
         outs = C.run_lines(binary(build), lines, timeout=1500)
         name = "bundle.o10/" + build
         st = rep.streams.setdefault(name, {})
         st["cases"] = len(lines)
+        st["overflow_aimed_histories"] = sum(1 for h in hs_all if h["overflow"])
         st["results"] = dict(Counter(" ".join(o.split(" ")[:1]) for o in outs))
+        st["results_overflow_aimed"] = dict(Counter(" ".join(o.split(" ")[:1]) for o, h in zip(outs, hs_all) if h["overflow"]))
         st["accepted_hist"] = dict(Counter(o.split(" ")[1] for o in outs if o.startswith("OK ")).most_common(12))
         rep.evaluations += len(lines)
         rep.traces += len(lines)
-        soft = {"initcost": ("FAIL-INIT", known2_listed, "cost() underestimates the final cost before the first serialized add"),
-                "recompress": ("COMPRESS", known3_listed, "a rejected (serialized, restored) attempt changes the bytes and cost of the later output")}
-        for sname, (tag, listed, why) in soft.items():
+        for cls, tag in SOFT.items():
             hits = [(l, o) for l, o in zip(lines, outs) if o.startswith("FAIL-") and tag in o.split(" ")[0]]
-            st2 = rep.streams.setdefault("bundle.o10.%s/%s" % (sname, build), {})
+            st2 = rep.streams.setdefault("bundle.o10.%s/%s" % (cls, build), {})
             st2["cases"] = len(hits)
-            st2["counted_as_failures"] = listed
+            st2["listed_in_KNOWN_FINDINGS"] = listed[cls]
             if hits:
                 ex = min(hits, key=lambda x: len(x[0]))
                 st2["example"] = {"case": ex[0][:6000], "impl": ex[1]}
-            if listed:
-                for l, o in hits:
-                    rep.add_failure("bundle.o10." + sname, l, o, "OK", why)
-        for l, o, h in zip(lines, outs, normal):
+            for l, o in hits:
+                # known finding when listed; otherwise a plain violation
+                rep.add_failure("bundle.o10." + cls, l, o, "OK", why[cls])
+        for l, o, h in zip(lines, outs, hs_all):
             if o.startswith("FAIL-"):
-                pass
-            elif not o.startswith("OK"):
+                continue
+            if not o.startswith("OK"):
                 rep.add_failure(name, l, o, "OK", "the builder violates the property on this history (implementation-level oracle)")
             else:
-                rep.nontrivial.add((name, h["kind"], h["cpb"], h["maxkind"], o))
-        # the overflow class: separate stream, reported; a failure only once the finding is listed
-        ov = [h for h in hs_all if h["overflow"]]
-        lines = [B.history_line("bundle.o10", build, h) for h in ov]
-        outs = C.run_lines(binary(build), lines, timeout=1500)
-        st = rep.streams.setdefault("bundle.o10.overflow/" + build, {})
-        st["cases"] = len(lines)
-        st["results"] = dict(Counter(" ".join(o.split(" ")[:4]) for o in outs).most_common(12))
-        st["counted_as_failures"] = known_listed
-        bad = [(l, o) for l, o in zip(lines, outs) if not o.startswith("OK") and not o.startswith("FAIL-")]
-        if bad:
-            st["example"] = {"case": min(bad, key=lambda x: len(x[0]))[0][:3000], "impl": min(bad, key=lambda x: len(x[0]))[1]}
-        rep.evaluations += len(lines)
-        if known_listed:
-            for l, o in bad:
-                rep.add_failure("bundle.o10.overflow", l, o, "OK", "declared cost near 2^64 overflows the builder's u64 sums")
+                rep.nontrivial.add((name, h["kind"], h["cpb"], h["maxkind"], h["overflow"], o))
